@@ -532,3 +532,16 @@ def replay(data):
         code = C.run_case_files(ID, REQ, PRE, [[term]], judge_expr="map judge_relative cases")[0][0]
     print("judge code:", code, "(bit 0: model differs, bit 1: contradicts Spec)")
     return (code & 2) == 0
+
+
+# --- translated small functions (tools/gens/gen_pure.py): Props/T_insns.v proves the regenerated Python functions
+# equal to the hand models this property's theorems are about; explore_t cross-checks the translator itself
+import t_check  # noqa: E402
+PROP_FILES = PROP_FILES + ["Props/T_insns.v", "Props/T.v"]
+RUN_FILES = RUN_FILES + ["Run/TRunInsns.v"]
+_explore_without_t = explore
+
+
+def explore(rep, br, tier, seed):
+    _explore_without_t(rep, br, tier, seed)
+    t_check.explore_t(rep, tier, seed, pid=ID, only=["insns"])
